@@ -14,8 +14,8 @@ CLAIMS = {
  "C04": dict(
   technique="Lean 4 proofs that the reader's answers do not depend on what a layout may vary (lookup and listing of a search tree depend only on its set of entries — any shape, any colouring, any slots; bytes read through a chain depend only on the chain's sector contents in order, not on placement) + an independent layout synthesiser whose images are judged by SpecCheck, opened by the library in both modes against the encoded content, by the Raw reader model in lock-step, and then mutated through the API",
   text="Proof: CfbVerif.Props.C04 — sorted_ext, C04_inorder_shape_independent, C04_listing_shape_independent, C04_lookup_shape_independent, C04_chain_placement_independent. "
-       "Tie: harness/src/layout.rs writes files the library's writer never produces (sector permutations, FAT/DIFAT/MiniFAT/directory anywhere, fragmented chains, free gaps, random directory slots with unallocated gaps, balanced red-black trees, last sector linked to sector 0 with the FAT exactly covering the file, V3/V4); for each: SpecCheck accepts it, strict and permissive open expose exactly the encoded tree/metadata/bytes, the Raw model gives the same dump, a short API history on it agrees with the abstract model, its bytes reopen to the same state and still pass SpecCheck.",
-  note="Acceptance of every legal layout is decided per synthesised image, not proved (the Raw model's `open` has safety and strict-subset-permissive theorems, C05/C16, not a completeness theorem). The byte-exact allocation model is not started from foreign files. Trusted: Lean kernel, standard axioms, the layout writer and SpecCheck as definition of spec-valid, harness.",
+       "Tie: harness/src/layout.rs writes files the library's writer never produces (sector permutations, FAT/DIFAT/MiniFAT/directory anywhere, fragmented chains, free gaps, random directory slots with unallocated gaps, balanced red-black trees, last sector linked to sector 0 with the FAT exactly covering the file, V3/V4); for each: SpecCheck accepts it, strict and permissive open expose exactly the encoded tree/metadata/bytes, the Raw model gives the same dump, a short API history on it agrees with the abstract model, its bytes reopen to the same state and pass SpecCheck after every call; the two-level model is loaded from each foreign image (Phys.ofImage) and reproduces the file byte for byte after the load and after every call.",
+  note="Acceptance of every legal layout is decided per synthesised image, not proved (the Raw model's `open` has safety and strict-subset-permissive theorems, C05/C16, not a completeness theorem). Files with unreachable allocated entries or unreadable chains cannot be loaded into the model (none occur in valid layouts). Trusted: Lean kernel, standard axioms, the layout writer and SpecCheck as definition of spec-valid, harness.",
   design="§3 C04"),
  "C03": dict(
   technique="Independent executable checker written in Lean (SpecCheck: own parser, the property's rule list) run on the byte-exact allocation model's image after every call (verdict transferred to the real file by equal length and hash) and directly on real snapshots incl. an 18 MB image with two DIFAT sectors; Lean proofs of the allocator facts behind single ownership and marking (a handed-out sector was FREE or new; FAT sectors are entered in the DIFAT and marked; invariant kept), tree rules from the directory model's invariant",
